@@ -439,6 +439,7 @@ def oracle(log, scenario=(), want=("C12", "C13")):
     worker_pool = {}             # thread -> pool
     hook = {}                    # thread -> [starts, stops]
     hook_inst = {}               # thread -> pool instance named by its thread_start
+    idle_kicks = {}              # worker thread -> (kick handler runs in a row without a work function, line of the first)
     dead_creator, dead_thread, dead_joined = {}, {}, set()
     lib_created = {}             # thread -> creator (threads created through iv_thread_create)
     exited, joined = set(), set()
@@ -499,6 +500,17 @@ def oracle(log, scenario=(), want=("C12", "C13")):
             last_snap[w[1][7:]] = kv
         elif k == "IPOST" and w[1].startswith("tn:"):
             tn_pending.add(w[1][3:])
+        elif k == "IH" and w[1].startswith("kick:") and w[2] == "begin":
+            # a worker that handles its kick while an item of its pool has been queued since before its previous kick must dequeue something:
+            # three kick rounds in a row without starting a work function, with such an item waiting all along, is a livelock (the worker
+            # re-kicks itself for ever and the item never runs)
+            p = w[1].split(":")[1]
+            waiting = [x for x, it in item.items() if it["pool"] == p and it["begun"] == 0 and it["line"] < idle_kicks.get(t, (0, n))[1]]
+            c, first = idle_kicks.get(t, (0, n))
+            idle_kicks[t] = (c + 1, first) if waiting or c == 0 else (1, n)
+            if idle_kicks[t][0] >= 4 and waiting:
+                bad("lost:livelock", f"line {n}: worker T{t} of pool {p} handled its kick {idle_kicks[t][0]} times in a row without starting a work function "
+                    f"although {waiting[0]} (submitted at line {item[waiting[0]]['line']}) has been queued all along: the item never runs")
         elif k == "IH" and w[1].startswith("tn:") and w[2] == "begin":
             tn_pending.discard(w[1][3:])
             in_tn[t] = [w[1][3:], False]
@@ -559,6 +571,8 @@ def oracle(log, scenario=(), want=("C12", "C13")):
                     bad("hook:stop-before-start", f"line {n}: thread_stop without thread_start in worker T{t}")
                 if h[1] > 1:
                     bad("hook:stop-twice", f"line {n}: thread_stop called twice in worker T{t}")
+        elif k == "WORK" and w[2] == "begin" and idle_kicks.pop(t, None) and False:
+            pass
         elif k == "WORK" and w[2] == "begin":
             x = w[1]
             p = w[3].split("=")[1]
